@@ -290,6 +290,7 @@ class ReplayResult:
         self.ok = 0
         self.steps = 0
         self.mism = []    # (pid, step, thread, pc_before, field, exp, got)
+        self.crashed = None
         self.hist = collections.defaultdict(list)   # pid -> [(t, op, val, res)]
 
 
@@ -322,6 +323,10 @@ def run_replay(exe, text, hist=False, timeout=900):
             r.hist[int(p[1])].append((int(p[2]), p[3], int(p[4]), int(p[5])))
         elif p[0] == "DONE":
             done = p
+    if isinstance(rc, int) and rc < 0:
+        r.crashed = (rc, err[-600:], len(lines))       # the real code died while replaying specification behaviours
+        r.steps = 0
+        return r
     if rc != 0 or done is None:
         raise Infra("lfcache_replay failed rc=%s: %s %s" % (rc, "\n".join(lines[-5:]), err[-2000:]))
     r.steps = int(done[2])
